@@ -70,14 +70,14 @@ def parse_template(path):
             body = s[3:].strip()
             word = body.split()[0] if body else ''
             rest = body[len(word):].strip()
-            if word in ('fn', 'block', 'type', 'handlerstubs'):
+            if word in ('fn', 'block', 'type', 'handlerstubs', 'assumed'):
                 if cur is not None:
                     raise ExtractError('%s:%d nested directive' % (path, ln))
                 if raw:
                     segs.append('\n'.join(raw)); raw = []
                 cur = Directive(word, _split_args(rest), ln, path)
                 sec = None
-                if word in ('type', 'handlerstubs'):
+                if word in ('type', 'handlerstubs', 'assumed'):
                     segs.append(cur); cur = None
                 continue
             if word == 'end':
@@ -209,15 +209,68 @@ DEREF_STMT = re.compile(r'^[ \t]*let\s+state\s*=\s*statem\.deref_mut\(\);[ \t]*$
 LOCK_EXPR = re.compile(r'self\.state\.(read|write)\(\)\.await\.')
 
 
+SECTION_CALL = 'verif_section(state, &conn_state.receiver, Ghost(acq__)); proof { acq__ = true; } // [R1s]'
+
+
+def _stmt_start_line(lines, li):
+    """index of the line that starts the statement holding line li: the nearest line at or above li that is at round/square bracket
+    depth 0 and whose predecessor (ignoring blank and comment lines) ends a statement or opens / closes a block"""
+    depth_at = []
+    depth = 0
+    for l in lines:
+        depth_at.append(depth)
+        for ch in re.sub(r'//.*', '', l):
+            if ch in '([':
+                depth += 1
+            elif ch in ')]':
+                depth -= 1
+    k = li
+    while k > 0:
+        if depth_at[k] <= 0:
+            j = k - 1
+            while j >= 0 and not re.sub(r'//.*', '', lines[j]).strip():
+                j -= 1
+            if j < 0 or re.sub(r'//.*', '', lines[j]).rstrip()[-1:] in ';{}':
+                return k
+        k -= 1
+    return 0
+
+
 def rule_r1(body, counts, info):
+    """R1: the lock acquisitions `let [mut] state = self.state.read()/write().await;` and `self.state.read()/write().await.` are removed, the
+    registry becomes the parameter `state`. R1s: a function that acquires the lock at more than one place runs in more than one critical
+    section: in front of every acquisition goes `verif_section(..)`, which leaves the registry alone the first time it is reached on a
+    path and afterwards replaces it by whatever the other connections may have made of it (assumed rely condition `others_ran`)."""
     n_acq = 0
+    code = re.sub(r'//.*', '', body)
+    multi = len(LOCK_STMT.findall(code)) + len(LOCK_EXPR.findall(code)) >= 2
 
     def repl(m):
         nonlocal n_acq
         n_acq += 1
-        return '// [R1] ' + m.group(0).strip()
+        ind = re.match(r'[ \t]*', m.group(0)).group(0)
+        return ind + '// [R1] ' + m.group(0).strip() + (('\n' + ind + SECTION_CALL) if multi else '')
     body = LOCK_STMT.sub(repl, body)
     body = DEREF_STMT.sub(lambda m: '// [R1] ' + m.group(0).strip(), body)
+    while multi:
+        m = None
+        for mm in LOCK_EXPR.finditer(body):
+            ls = body.rfind('\n', 0, mm.start()) + 1
+            if '//' not in body[ls:mm.start()]:
+                m = mm
+                break
+        if m is None:
+            break
+        n_acq += 1
+        lines = body[:m.start()].split('\n')
+        li = len(lines) - 1
+        all_lines = body.split('\n')
+        at = _stmt_start_line(all_lines, li)
+        col = m.start() - (body.rfind('\n', 0, m.start()) + 1)
+        all_lines[li] = all_lines[li][:col] + 'state.' + all_lines[li][col + len(m.group(0)):]
+        ind = re.match(r'[ \t]*', all_lines[at]).group(0)
+        all_lines.insert(at, ind + SECTION_CALL)
+        body = '\n'.join(all_lines)
 
     def repl2(m):
         nonlocal n_acq
@@ -226,6 +279,9 @@ def rule_r1(body, counts, info):
     body = LOCK_EXPR.sub(repl2, body)
     if 'self.state.' in re.sub(r'//.*', '', body):
         raise ExtractError('R1: unrecognised lock use remains')
+    if multi:
+        body = '\n        let ghost mut acq__: bool = false; // [R1s]' + body
+        counts['R1s'] = n_acq
     counts['R1'] = counts.get('R1', 0) + n_acq
     info['lock_acquisitions'] = n_acq
     return body
@@ -1356,6 +1412,24 @@ def fn_after_self(sig, extra):
     return add_params(sig, extra)
 
 
+def check_assumed(d, unit, report):
+    """//@assumed FILE QUALNAME sha=HEX [units=u1,u2]: the contract of this function is ASSUMED (written by inspection of its text, not
+    proved). The assumption is tied to that text: when the text of the function in /repo is no longer the pinned one, the units that
+    rely on the assumption cannot be decided (exit 2; the witness scripts of that function are then tried). Pins are renewed only by
+    the deliberate maintenance step tools/update_allowlist.py --pins."""
+    units = [u for u in (d.opt('units') or '').split(',') if u]
+    rel, qual = d.args[0], d.args[1]
+    src, it = locate(rel, 'fn', qual)
+    sha = hashlib.sha256(src[it.start:it.end].encode()).hexdigest()[:12]
+    report.setdefault('assumed_pins', []).append({'fn': qual, 'file': rel, 'pinned': d.opt('sha'), 'now': sha})
+    if units and unit not in units:
+        return
+    if sha != d.opt('sha'):
+        # not an abort: the functions proved in this unit are still verified (a failing obligation among them is reported as such)
+        report.setdefault('pin_mismatch', []).append('lost anchor: %s: the text of this function, whose contract is ASSUMED, is not the text '
+                                                     'the assumption was made for (pinned %s, now %s)' % (qual, d.opt('sha'), sha))
+
+
 def emit_fn(d, unit, report, canaries):
     if d.kind == 'block' and d.opt('passof'):
         if d.opt('unit') != unit:
@@ -1786,6 +1860,8 @@ def build_unit(world_files, unit, outdir):
                 main_lines.extend(emit_type(seg, report).split('\n'))
             elif seg.kind == 'handlerstubs':
                 main_lines.extend(emit_handler_stubs(seg, report).split('\n'))
+            elif seg.kind == 'assumed':
+                check_assumed(seg, unit, report)
             else:
                 txt, _can = emit_fn(seg, unit, report, None)
                 s = len(main_lines) + 1
@@ -1824,6 +1900,8 @@ def build_canary_unit(world_files, unit, outdir):
                 lines.extend(emit_type(seg, report).split('\n'))
             elif seg.kind == 'handlerstubs':
                 lines.extend(emit_handler_stubs(seg, report).split('\n'))
+            elif seg.kind == 'assumed':
+                pass
             else:
                 txt, can = emit_fn(seg, unit, report, None)
                 home = seg.opt('unit')
